@@ -42,6 +42,9 @@ BUDGET = {"quick": 400, "thorough": 3000}
 def cases(tier, seed):
     n = 28 if tier == "quick" else 1500
     out = [{"sub": "mol", "i": i} for i in range(n)]
+    # directed: odd electron counts of every residue mod 4 (1, 3, 5 active electrons)
+    forced = ["H2+", "LiH+_one_active_electron", "H3", "H4+"] + (["H5", "H5"] if tier != "quick" else [])
+    out += [{"sub": "mol", "i": 100000 + j, "kind": k} for j, k in enumerate(forced * (1 if tier == "quick" else 10))]
     out += [{"sub": "rotation", "i": i} for i in range(6 if tier == "quick" else 400)]
     return out
 
@@ -53,20 +56,20 @@ def jw_terms(mol, mapping="JW", utd=False):
     return {tuple(t): c for t, c in q.terms.items()}
 
 
-def sector_min(mol, n_roots=4):
+def sector_min(mol, nab=None):
     """(sorted lowest eigenvalues of the JW block in the target (n_alpha, n_beta) sector, leak)."""
     terms = jw_terms(mol)
     n = mol.n_active_sos
-    na, nb = mol.n_active_ab_electrons
+    na, nb = nab if nab is not None else mol.n_active_ab_electrons
     idx = fock.sector_indices(n, n_alpha=na, n_beta=nb)
     blk, leak = chemref.sector_block(terms, n, idx)
     ev = np.linalg.eigvalsh((blk + blk.conj().T) / 2)
     return ev, leak, blk, idx
 
 
-def reference_fci(mol):
+def reference_fci(mol, nab=None):
     pymol = mol.mean_field.mol
-    na, nb = mol.n_active_ab_electrons
+    na, nb = nab if nab is not None else mol.n_active_ab_electrons
     if not mol.uhf:
         C = np.asarray(mol.mo_coeff)
         e, h, eri = chemref.restricted_active_space(pymol, C, list(mol.frozen_occupied), list(mol.active_mos))
@@ -97,7 +100,7 @@ def run_mol(case, ctx):
     from tangelo.toolboxes.qubit_mappings.mapping_transform import get_qubit_number
     from tangelo.toolboxes.qubit_mappings.statevector_mapping import get_reference_circuit
     rng, pr, s = case_rng(ctx.seed, "C04", "mol", case["i"])
-    spec = chem.mol_spec(pr, rng)
+    spec = chem.mol_spec(pr, rng, kinds=[case["kind"]]) if case.get("kind") else chem.mol_spec(pr, rng)
     mol = build_or_skip(spec, ctx)
     if mol is None:
         return
@@ -107,10 +110,22 @@ def run_mol(case, ctx):
         return
     na, nb = mol.n_active_ab_electrons
     wit = {"spec": spec, "n_active_sos": n, "n_active_electrons": [na, nb]}
-    ev, leak, blk, idx = sector_min(mol)
+    # active electron numbers counted from the mean-field occupations of the active orbitals (not from the library's formula)
+    occ = mol.mean_field.mo_occ
+    if mol.uhf:
+        na_ref = int(round(sum(float(occ[0][i]) for i in mol.active_mos[0])))
+        nb_ref = int(round(sum(float(occ[1][i]) for i in mol.active_mos[1])))
+    else:
+        na_ref = int(sum(1 for i in mol.active_mos if occ[i] > 0.5))
+        nb_ref = int(sum(1 for i in mol.active_mos if occ[i] > 1.5))
+    ctx.check("active_electron_count", (na, nb) == (na_ref, nb_ref) and mol.n_active_electrons == na_ref + nb_ref,
+              f"n_active_ab_electrons = {(na, nb)}, the occupations of the active orbitals hold {(na_ref, nb_ref)} electrons", dict(wit, counted=[na_ref, nb_ref]))
+    na, nb = na_ref, nb_ref
+    ctx.tab("n_active_electrons", str(na_ref + nb_ref))
+    ev, leak, blk, idx = sector_min(mol, (na_ref, nb_ref))
     ctx.check("hamiltonian_conserves_sector", leak < 1e-9, "the Jordan-Wigner Hamiltonian couples the target (n_alpha, n_beta) sector to other sectors",
               dict(wit, leak=leak))
-    e_ref = reference_fci(mol)
+    e_ref = reference_fci(mol, (na_ref, nb_ref))
     ctx.check("sector_ground_state_equals_reference_fci", abs(ev[0] - e_ref) < 1e-7,
               f"lowest eigenvalue of the qubit Hamiltonian in the target sector ({ev[0]:.9f}) differs from the classical full-CI energy ({e_ref:.9f})",
               dict(wit, qubit=float(ev[0]), reference=float(e_ref)))
@@ -198,9 +213,23 @@ def run_rotation(case, ctx):
         return C2
     if mol.uhf:
         Ca, Cb = [np.asarray(x) for x in mol.mo_coeff]
-        mol.mo_coeff = [rot(Ca, list(mol.active_mos[0])), rot(Cb, list(mol.active_mos[1]))]
+        newC = [rot(Ca, list(mol.active_mos[0])), rot(Cb, list(mol.active_mos[1]))]
     else:
-        mol.mo_coeff = rot(np.asarray(mol.mo_coeff), list(mol.active_mos))
+        newC = rot(np.asarray(mol.mo_coeff), list(mol.active_mos))
+    # route 1: the rotated coefficients handed over as an explicit argument (the molecule keeps its own orbitals)
+    from tangelo.toolboxes.qubit_mappings.mapping_transform import fermion_to_qubit_mapping
+    with warnings.catch_warnings():
+        warnings.simplefilter("ignore")
+        hf_rot = mol._get_fermionic_hamiltonian(newC)
+    q = fermion_to_qubit_mapping(hf_rot, "JW", n_spinorbitals=mol.n_active_sos, n_electrons=mol.n_active_electrons, up_then_down=False, spin=mol.active_spin)
+    na_, nb_ = mol.n_active_ab_electrons
+    blk, _leak = chemref.sector_block({tuple(t): c for t, c in q.terms.items()}, mol.n_active_sos, fock.sector_indices(mol.n_active_sos, n_alpha=na_, n_beta=nb_))
+    e_arg = float(np.linalg.eigvalsh((blk + blk.conj().T) / 2)[0])
+    ctx.check("rotation_invariance", abs(e_arg - e0) < 1e-7,
+              f"the Hamiltonian built from explicitly supplied rotated orbitals has another lowest sector eigenvalue ({e0:.9f} -> {e_arg:.9f})",
+              {"spec": spec, "before": float(e0), "after": e_arg, "route": "mo_coeff argument"})
+    # route 2: the molecule's own coefficients are replaced
+    mol.mo_coeff = newC
     e1 = sector_min(mol)[0][0]
     ctx.check("rotation_invariance", abs(e1 - e0) < 1e-7, f"a rotation among the active orbitals changed the lowest sector eigenvalue ({e0:.9f} -> {e1:.9f})",
               {"spec": spec, "before": float(e0), "after": float(e1)})
